@@ -33,6 +33,23 @@ impl HttpServer {
         panic!("http server did not start on port {}", port);
     }
 
+    /// any bytes as a whole request (malformed heads, odd methods, bodies that are not UTF-8);
+    /// returns the status line, or an error text when the server sent nothing back
+    pub fn raw(&self, request: &[u8]) -> Result<String, String> {
+        let mut s = TcpStream::connect(("127.0.0.1", self.port)).map_err(|e| e.to_string())?;
+        s.set_read_timeout(Some(std::time::Duration::from_secs(5))).ok();
+        s.write_all(request).map_err(|e| e.to_string())?;
+        let _ = s.shutdown(std::net::Shutdown::Write);
+        let mut buf = vec![];
+        let _ = s.read_to_end(&mut buf);
+        let text = String::from_utf8_lossy(&buf).to_string();
+        Ok(text.lines().next().unwrap_or("").to_string())
+    }
+    pub fn post_bytes(&self, body: &[u8]) -> Result<String, String> {
+        let mut req = format!("POST / HTTP/1.1\r\nHost: x\r\nConnection: close\r\nContent-Length: {}\r\n\r\n", body.len()).into_bytes();
+        req.extend_from_slice(body);
+        self.raw(&req)
+    }
     pub fn post(&self, body: &str) -> Result<String, String> {
         let mut s = TcpStream::connect(("127.0.0.1", self.port)).map_err(|e| e.to_string())?;
         s.set_read_timeout(Some(std::time::Duration::from_secs(20))).ok();
